@@ -788,6 +788,54 @@ def c03_13(ctx):
     return out
 
 
+def c03_14(ctx):
+    """Point.__rmul__ computes c*P for every c >= 0, including c = 0 (infinity): the method is evaluated over the domain
+    "integer multiples of a formal point" -- the receiver is 1*P, `+` on points adds the multiples, the constructor with
+    x = None is 0*P -- for every scalar 0..1100 and the values around the powers of two up to 2^64.  (Point addition itself
+    is judged by C03.2-C03.5; here only the double-and-add schedule is.)"""
+    from sa.cells import Evaluator, Obj, Raised, Undecided
+    spec = "pecc:Point.__rmul__"
+    mod, fn = rl.get(ctx, spec)
+
+    def mk(k):
+        return Obj("pecc", "Point", {"k": k, "a": None, "b": None, "x": (None if k == 0 else 1), "y": (None if k == 0 else 1)})
+
+    def add(a, b):
+        if not (isinstance(a, Obj) and isinstance(b, Obj)):
+            raise Undecided("point + non-point")
+        return mk(a.attrs["k"] + b.attrs["k"])
+
+    def init(o, x=None, y=None, a=None, b=None, **kw):
+        if x is not None:
+            raise Undecided("a finite point is constructed")
+        o.attrs.update({"k": 0, "x": None, "y": None, "a": a, "b": b})
+    scalars = list(range(0, 1101)) + [v for e in range(11, 65) for v in ((1 << e) - 1, 1 << e, (1 << e) + 1)]
+    bad = None
+    for c in scalars:
+        ev = Evaluator(ctx.repo, method_hooks={("Point", "__add__"): add, ("Point", "__init__"): init})
+        ctx.count("cells")
+        try:
+            r = ev.call(spec, [c], self_obj=mk(1))
+        except Undecided as u:
+            return [ctx.err(spec, "double-and-add not evaluable for scalar %d: %s" % (c, u), fn, mod)]
+        except Raised as x:
+            bad = (c, "raises %s" % x.name)
+            break
+        if not isinstance(r, Obj) or r.attrs.get("k") != c:
+            bad = (c, "returns %s" % ("%d*P" % r.attrs["k"] if isinstance(r, Obj) and "k" in r.attrs else repr(r)))
+            break
+    if bad:
+        return [ctx.bad(spec, "%d * P %s (expected %s): the group law a(bG) = (ab)G fails whenever the reduced scalar is %d (e.g. n*P)" % (
+            bad[0], bad[1], "the point at infinity" if bad[0] == 0 else "%d*P" % bad[0], bad[0]), fn, mod, key="double-and-add")]
+    return [ctx.ok(spec, "c*P is computed for all %d scalars evaluated (0..1100 and 2^e-1, 2^e, 2^e+1 for e = 11..64), 0*P = infinity" % len(scalars), fn, mod, key="double-and-add")]
+
+
+def c03_15(ctx):
+    """MEMO: products / parsed points are not remembered under a key that identifies the point only by its x coordinate"""
+    from sa.memo import memo_obligation
+    return memo_obligation(ctx, ["pecc"], "the product computed for P would be returned for -P")
+
+
 OBLIGATIONS = [
     ("C03.1", "RANGE accept-set", c03_1),
     ("C03.2", "GUARD", c03_2),
@@ -802,5 +850,7 @@ OBLIGATIONS = [
     ("C03.11", "DATAFLOW", c03_11),
     ("C03.12", "RANGE relation", c03_12),
     ("C03.13", "DATAFLOW+GUARD totality", c03_13),
+    ("C03.14", "CELLS double-and-add", c03_14),
+    ("C03.15", "MEMO", c03_15),
 ]
 FLOORS = {"C03.10": 7, "C03.11": 3, "C03.3": 2, "C03.5": 3, "C03.6": 3, "C03.7": 4, "C03.8": 3, "C03.9": 2}
